@@ -9,9 +9,10 @@ Definition mg (g : list node) (m : node) : Prop :=
   g <> [] /\ (nb m, bb m) = (nb (hd dnode g), bb (hd dnode g)) /\
   (ne m, be m) = (ne (last g dnode), be (last g dnode)) /\ surf m = concat (map surf g).
 
-(* an output node is an input node itself, or a merge carrying an allowed part of speech *)
+(* an output node is an input node itself, or a merge carrying an allowed part of speech and no split lists / word
+   structure / synonym group ids (so it is never split again in modes A / B) *)
 Definition mg' (allowed : N -> Prop) (g : list node) (m : node) : Prop :=
-  g = [m] \/ (mg g m /\ allowed (pos m)).
+  g = [m] \/ (mg g m /\ allowed (pos m) /\ extra m = 0%N).
 
 (* q is p with consecutive non-empty groups replaced by one node each *)
 Definition grouping (allowed : N -> Prop) (p q : list node) : Prop :=
@@ -33,7 +34,7 @@ Qed.
 Lemma grouping_weaken (A B : N -> Prop) p q : (forall x, A x -> B x) -> grouping A p q -> grouping B p q.
 Proof.
   intros HAB (gs & Hc & HF). exists gs. split; [assumption|].
-  clear Hc. induction HF as [|g m gs q H _ IH]; constructor; [|assumption]. destruct H as [->|[H1 H2]]; [now left | right; auto].
+  clear Hc. induction HF as [|g m gs q H _ IH]; constructor; [|assumption]. destruct H as [->|(H1 & H2 & H3)]; [now left | right; auto].
 Qed.
 
 Lemma hd_app_ne {A} (d : A) a b : a <> [] -> hd d (a ++ b) = hd d a.
@@ -81,17 +82,17 @@ Qed.
 
 (* one merge step on the current path keeps it a grouping of the original path *)
 Lemma grouping_step A p q b e m :
-  grouping A p q -> b < e -> e <= length q -> mg (slice q b e) m -> A (pos m) ->
+  grouping A p q -> b < e -> e <= length q -> mg (slice q b e) m -> A (pos m) -> extra m = 0%N ->
   grouping A p (firstn b q ++ m :: skipn e q).
 Proof.
-  intros (gs & Hc & HF) Hbe Hel Hm HA.
+  intros (gs & Hc & HF) Hbe Hel Hm HA Hx.
   rewrite (split3 q b e) in HF by lia.
   apply Forall2_app_inv_r in HF. destruct HF as (gs1 & gs23 & H1 & H23 & ->).
   apply Forall2_app_inv_r in H23. destruct H23 as (gs2 & gs3 & H2 & H3 & ->).
   exists (gs1 ++ [concat gs2] ++ gs3). split.
   - rewrite <- Hc. now rewrite !concat_app; cbn; rewrite app_nil_r.
   - apply Forall2_app; [assumption|]. cbn [app]. constructor; [|assumption].
-    right. split; [|assumption]. eapply mg_flatten; [exact H2 | | exact Hm].
+    right. split; [|split; assumption]. eapply mg_flatten; [exact H2 | | exact Hm].
     destruct Hm as (Hne & _). exact Hne.
 Qed.
 
@@ -143,7 +144,7 @@ Proof.
   destruct (_ <? e - b); [|apply IH; assumption].
   destruct (concat_oov_nodes p b e op) as [p'| |] eqn:E; try discriminate.
   apply concat_oov_ok in E. destruct E as (Hbe & Hel & ->).
-  apply IH. apply grouping_step; try assumption.
+  apply IH. apply grouping_step; try assumption; try reflexivity.
   apply mg_merged_oov, slice_ne; assumption.
 Qed.
 
@@ -155,7 +156,7 @@ Proof.
   destruct (N.eqb_spec (pos (at_ p b)) npos) as [Hpos|]; cbn [negb]; [|intros [= <-]; assumption].
   assert (Hstep : forall nf, concat_nodes p b e nf = Ok p' -> grouping A p0 p').
   { intros nf E. apply concat_nodes_ok in E. destruct E as (Hbe & Hel & ->).
-    apply grouping_step; try assumption.
+    apply grouping_step; try assumption; try reflexivity.
     - apply mg_merged_numeric, slice_ne; assumption.
     - cbn [merged_numeric pos]. rewrite hd_slice by assumption. now rewrite Hpos. }
   destruct en.
@@ -259,3 +260,17 @@ Proof. intros H. eapply grouping_surface, rewrite_is_grouping, H. Qed.
 
 Corollary rewrite_never_longer pls p q : run_plugins pls p = Some (Ok q) -> length q <= length p.
 Proof. intros H. eapply grouping_length, rewrite_is_grouping, H. Qed.
+
+(* a node of the result is a node of the input, or it was built by a plugin and then has no A/B split lists, no word
+   structure and no synonym group ids: it is never split again in modes A / B *)
+Lemma grouping_extra A p q m : grouping A p q -> In m q -> In m p \/ extra m = 0%N.
+Proof.
+  intros (gs & <- & HF) Hin. induction HF as [|g m' gs q Hg _ IH]; [contradiction|].
+  cbn [concat]. destruct Hin as [->|Hin].
+  - destruct Hg as [->|(_ & _ & Hx)]; [left; apply in_or_app; left; now left | now right].
+  - destruct (IH Hin) as [H|H]; [left; apply in_or_app; now right | now right].
+Qed.
+
+Corollary rewrite_built_nodes_have_no_splits pls p q m :
+  run_plugins pls p = Some (Ok q) -> In m q -> In m p \/ extra m = 0%N.
+Proof. intros H. eapply grouping_extra, rewrite_is_grouping, H. Qed.
